@@ -32,6 +32,7 @@ type Image struct {
 	NCommits int    // commits whose ts was allocated before the event
 	Step     uint64
 	Phase    string // what the DB was doing (flush/compaction/gc/drop/open/close/"")
+	Recovery bool   // second-level image: taken during the recovery of another image
 }
 
 type fobj struct {
